@@ -92,7 +92,7 @@ class Check:
         rc, out, err = sh(["coqc", "-Q", COQ, "QV", "-Q", self.dyn, "QD", fname], timeout, cwd=self.dyn)
         return rc == 0, out, err
 
-    def stage_a(self, gen_errors, gen_files, tie_file, props_file, extra_dyn=(), tie_text=None):
+    def stage_a(self, gen_errors, gen_files, tie_file, props_file, extra_dyn=(), tie_text=None, more_ties=()):
         """compile Gen*, the tie lemmas (one by one, in parallel, so that a failure names the lemma),
         then Tie + Props; record one obligation per tie lemma and per theorem.
         tie_text: content of the tie file when it is assembled by the check (else coq/Tie/<tie_file>)"""
@@ -109,13 +109,19 @@ class Check:
         tie_src = tie_text if tie_text is not None else open(os.path.join(COQ, "Tie", tie_file)).read()
         with open(os.path.join(self.dyn, tie_file), "w") as f:
             f.write(tie_src)
-        header, lemmas = split_lemmas(tie_src)
+        header, lems = split_lemmas(tie_src)
+        lemmas = [(header, n, t) for n, t in lems]
+        for fname, text in more_ties:
+            with open(os.path.join(self.dyn, fname), "w") as f:
+                f.write(text)
+            h2, l2 = split_lemmas(text)
+            lemmas += [(h2, n, t) for n, t in l2]
 
         def probe(item):
-            name, text = item
+            hdr, name, text = item
             pf = os.path.join(self.dyn, f"probe_{name}.v")
             with open(pf, "w") as f:
-                f.write(header + text)
+                f.write(hdr + text)
             ok, out, err = self.coqc(os.path.basename(pf), timeout=300)
             for ext in (".v", ".vo", ".vok", ".vos", ".glob"):
                 try:
@@ -131,7 +137,7 @@ class Check:
                     tie_ok[name] = ok
                     self.obligations.append((name, ok, "" if ok else err.strip()[-600:]))
         else:
-            for name, _ in lemmas:
+            for _, name, _ in lemmas:
                 tie_ok[name] = False
                 self.obligations.append((name, False, "generated file does not compile"))
         for x in extra_dyn:
@@ -140,6 +146,8 @@ class Check:
         thms = re.findall(r"^(?:Theorem|Example|Corollary)\s+(\w+)", open(os.path.join(COQ, "Props", props_file)).read(), flags=re.M)
         if all(tie_ok.values()) and ok_all:
             ok, out, err = self.coqc(tie_file)
+            for fname, _ in more_ties:
+                ok = ok and self.coqc(fname)[0]
             if ok:
                 for x in extra_dyn:
                     ok = ok and self.coqc(os.path.basename(x))[0]
